@@ -12,6 +12,7 @@ pub const TAG_RB: u64 = 0xF1F1_F1F1_F1F1_F101;
 pub const TAG_WB: u64 = 0xF1F1_F1F1_F1F1_F102;
 pub const TAG_WW: u64 = 0xF1F1_F1F1_F1F1_F103;
 pub const TAG_RW: u64 = 0xF1F1_F1F1_F1F1_F104;
+pub const TAG_PW: u64 = 0xF1F1_F1F1_F1F1_F105;
 
 pub struct JitEnv { pub bad_arg: bool, pub native_targets: bool }
 impl Env for JitEnv {
@@ -19,10 +20,10 @@ impl Env for JitEnv {
     if cpu.r[RDI] != MEMPTR { self.bad_arg = true; }
     let si = cpu.r[RSI] as u16;
     let p = core::ptr::null_mut::<MemoryAreas>();
-    let (rb, wb, ww, rw) = if self.native_targets {
+    let (rb, wb, ww, rw, pw) = if self.native_targets {
       (crate::mem::memory_read_byte as usize as u64, crate::mem::memory_write_byte as usize as u64,
-       crate::mem::memory_write_word as usize as u64, crate::mem::memory_read_word as usize as u64)
-    } else { (TAG_RB, TAG_WB, TAG_WW, TAG_RW) };
+       crate::mem::memory_write_word as usize as u64, crate::mem::memory_read_word as usize as u64, crate::mem::memory_push_word as usize as u64)
+    } else { (TAG_RB, TAG_WB, TAG_WW, TAG_RW, TAG_PW) };
     if target == rb {
       let v = crate::mem::memory_read_byte(p, si);
       cpu.clobber_caller_saved();
@@ -32,6 +33,9 @@ impl Env for JitEnv {
       cpu.clobber_caller_saved();
     } else if target == ww {
       crate::mem::memory_write_word(p, si, cpu.r[RDX] as u16);
+      cpu.clobber_caller_saved();
+    } else if target == pw {
+      crate::mem::memory_push_word(p, si, cpu.r[RDX] as u16);
       cpu.clobber_caller_saved();
     } else if target == rw {
       let v = crate::mem::memory_read_word(p, si);
